@@ -17,7 +17,6 @@ package ocifilter
 import (
 	"context"
 	"io"
-	"path"
 	"strings"
 
 	"cuelabs.dev/go/oci/ociregistry"
@@ -201,5 +200,7 @@ func (r *subRegistry) repo(name string) string {
 		// empty name.
 		return ""
 	}
-	return path.Join(r.prefix, name)
+	// Don't use path.Join here: it cleans the result, so a name
+	// such as "../x" would escape the prefix.
+	return r.prefix + "/" + name
 }
